@@ -139,8 +139,25 @@ fn corrupt(p: LogicalPlan, how: &str) -> LogicalPlan {
     }
 }
 
-/// Confirmed root causes (filled in after triage): maps an observation to a fixed key.
-fn attribute(_sql: &str, _plan_text: &str, _back_text: &str, _what: &str) -> Option<&'static str> {
+/// Confirmed root causes (triaged on the unchanged tree, see the final report): maps a failing
+/// case to one fixed key per root cause.  First match wins; otherwise the per-query default key.
+fn attribute(_sql: &str, plan_text: &str, back_text: &str, _what: &str) -> Option<&'static str> {
+    if plan_text.contains("null_aware") && !back_text.contains("null_aware") {
+        // NOT IN: the null-aware flag of the LeftAnti join is not carried through Substrait
+        return Some("anti_join_null_aware_flag_lost");
+    }
+    // RANGE frames with numeric offsets: unoptimised plans come back UNBOUNDED..UNBOUNDED, optimised plans keep the
+    // text but return different rows (the typed offset literal is not preserved)
+    if let Some(p) = plan_text.find("RANGE BETWEEN ") {
+        let rest = &plan_text[p + "RANGE BETWEEN ".len()..];
+        if rest.chars().next().map(|c| c.is_ascii_digit()).unwrap_or(false) || rest.contains(" AND 1 ") {
+            return Some("range_frame_offsets_not_preserved");
+        }
+    }
+    if plan_text.contains("outer_ref(") && plan_text.contains("SubqueryAlias:") && !back_text.contains("SubqueryAlias:") {
+        // the producer drops SubqueryAlias; a correlated subquery over the same table then compares a column with itself
+        return Some("table_alias_dropped_in_correlated_subquery_over_the_same_table");
+    }
     None
 }
 
